@@ -61,7 +61,8 @@ macro_rules! impl_vec1view_for_ndarray {
 
             #[inline]
             fn try_as_slice(&self) -> Option<&[T]> {
-                self.as_slice_memory_order()
+                // only a view in standard (logical) order is the sequence itself
+                self.as_slice()
             }
 
             #[inline]
